@@ -97,7 +97,7 @@ pub fn role(kind: usize, seed: u64, record_use: bool) -> u64 {
     let mut rng = Rng::new(seed);
     let k = rng.range(1, 24);
     let r = rng.range(1, 24);
-    let size = *rng.pick(&[2usize, 64, 66, 130]);
+    let size = *rng.pick(&[2usize, 64, 66, 100, 130]);
     let used = |t: u64| {
         if record_use {
             hooks::table_event(t, EV_USE);
